@@ -216,12 +216,40 @@ func footer(e *env) {
 		}
 	}
 	bd := pat.Binds{"_a": sumAs.Lhs[0], "_b": readAs.Lhs[0], "_err": readAs.Lhs[1]}
-	eq := func(f cfgq.Fact) bool {
-		return f.Val && pat.Expr("_a == _b").Match(info, f.Expr, bd) != nil || !f.Val && pat.Expr("_a != _b").Match(info, f.Expr, bd) != nil
+	same := func(x, y ast.Expr) bool { return pat.Same(info, strip(info, x), strip(info, y)) }
+	// established: +1 if the fact establishes computed == stored, -1 if it
+	// establishes that they differ; a one-line boolean helper is looked through.
+	established := func(f cfgq.Fact) int {
+		atoms := []cfgq.Fact{f}
+		subst := func(x ast.Expr) ast.Expr { return x }
+		if call, ok := ast.Unparen(f.Expr).(*ast.CallExpr); ok {
+			if ret, args := predBody(c, foot, call); ret != nil {
+				atoms = cfgq.Facts(ret, f.Val)
+				subst = func(x ast.Expr) ast.Expr {
+					if a, ok := args[objOf(info, strip(info, x))]; ok {
+						return a
+					}
+					return x
+				}
+			}
+		}
+		for _, a := range atoms {
+			be, ok := ast.Unparen(a.Expr).(*ast.BinaryExpr)
+			if !ok || be.Op != token.EQL && be.Op != token.NEQ {
+				continue
+			}
+			l, r := subst(be.X), subst(be.Y)
+			if same(l, sumAs.Lhs[0]) && same(r, readAs.Lhs[0]) || same(l, readAs.Lhs[0]) && same(r, sumAs.Lhs[0]) {
+				if (be.Op == token.EQL) == a.Val {
+					return 1
+				}
+				return -1
+			}
+		}
+		return 0
 	}
-	neq := func(f cfgq.Fact) bool {
-		return !f.Val && pat.Expr("_a == _b").Match(info, f.Expr, bd) != nil || f.Val && pat.Expr("_a != _b").Match(info, f.Expr, bd) != nil
-	}
+	eq := func(f cfgq.Fact) bool { return established(f) == 1 }
+	neq := func(f cfgq.Fact) bool { return established(f) == -1 }
 	noErr := func(f cfgq.Fact) bool {
 		return f.Val && pat.Expr("_err == nil").Match(info, f.Expr, bd) != nil || !f.Val && pat.Expr("_err != nil").Match(info, f.Expr, bd) != nil
 	}
@@ -299,17 +327,204 @@ func le64(c *core.Ctx, fn *core.Fn) {
 // R3 payload verifiers
 
 type verif struct {
-	e    *env
-	fn   *core.Fn
-	info *types.Info
-	d    types.Object
-	g    *cfgq.Graph
-	name string
+	e       *env
+	fn      *core.Fn
+	info    *types.Info
+	d       types.Object
+	g       *cfgq.Graph
+	name    string
+	depth   int // 0: the checker itself, 1: a helper it hands the payload to
+	helpers map[*ast.CallExpr]*helperSum
+}
+
+// rng is a sub-range [lo, hi) of the payload, both ends of the form a*len(d)+b.
+type rng struct{ la, lb, ha, hb int64 }
+
+// helperSum summarises a same-package helper f(d) that cuts the payload into
+// pieces and reports with a boolean whether it was long enough.
+type helperSum struct {
+	views map[int]rng // result index -> piece, on the returns whose flag is true
+	okIdx int
+	okMin int64 // flag true => len(d) >= okMin
+}
+
+// tupleDef: o is defined exactly once, as the idx-th result of a call.
+func (v *verif) tupleDef(o types.Object) (call *ast.CallExpr, idx int, ok bool) {
+	if o == nil {
+		return nil, 0, false
+	}
+	n := 0
+	ast.Inspect(v.fn.Decl.Body, func(m ast.Node) bool {
+		if as, isAs := m.(*ast.AssignStmt); isAs {
+			for i, l := range as.Lhs {
+				if objOf(v.info, l) == o {
+					n++
+					if c, isCall := ast.Unparen(as.Rhs[0]).(*ast.CallExpr); isCall && len(as.Rhs) == 1 && len(as.Lhs) > 1 {
+						call, idx = c, i
+					}
+				}
+			}
+		}
+		return true
+	})
+	return call, idx, n == 1 && call != nil
+}
+
+func boolConst(info *types.Info, e ast.Expr) (val, ok bool) {
+	tv, has := info.Types[e]
+	if !has || tv.Value == nil {
+		return false, false
+	}
+	switch tv.Value.String() {
+	case "true":
+		return true, true
+	case "false":
+		return false, true
+	}
+	return false, false
+}
+
+// summary analyses the helper called with the whole payload as only argument.
+func (v *verif) summary(call *ast.CallExpr) *helperSum {
+	if s, done := v.helpers[call]; done {
+		return s
+	}
+	if v.helpers == nil {
+		v.helpers = map[*ast.CallExpr]*helperSum{}
+	}
+	v.helpers[call] = nil
+	f := core.CalleeFunc(v.info, call)
+	if v.depth > 0 || f == nil || f.Pkg() != v.fn.Obj.Pkg() || len(call.Args) != 1 {
+		return nil
+	}
+	if r, ok := v.rangeOf(call.Args[0]); !ok || r != (rng{0, 0, 1, 0}) {
+		return nil
+	}
+	hf := v.e.c.FnOf(f)
+	sig := f.Type().(*types.Signature)
+	if hf == nil || hf.Decl.Body == nil || sig.Params().Len() != 1 {
+		return nil
+	}
+	sub := &verif{e: v.e, fn: hf, info: hf.Pkg.TypesInfo, d: sig.Params().At(0), g: cfgq.Of(v.e.c.Program, hf), name: hf.Decl.Name.Name, depth: 1}
+	sum := &helperSum{views: map[int]rng{}, okIdx: -1}
+	for i := 0; i < sig.Results().Len(); i++ {
+		if b, ok := sig.Results().At(i).Type().Underlying().(*types.Basic); ok && b.Kind() == types.Bool {
+			if sum.okIdx >= 0 {
+				return nil
+			}
+			sum.okIdx = i
+		}
+	}
+	if sum.okIdx < 0 {
+		return nil
+	}
+	var trues []cfgq.Point
+	valid := true
+	for _, p := range sub.g.Points(func(n ast.Node) bool { _, ok := n.(*ast.ReturnStmt); return ok }) {
+		r := p.Node().(*ast.ReturnStmt)
+		if len(r.Results) != sig.Results().Len() {
+			return nil // bare return with named results: not followed
+		}
+		flag, isC := boolConst(sub.info, r.Results[sum.okIdx])
+		if !isC {
+			return nil
+		}
+		if !flag {
+			continue
+		}
+		trues = append(trues, p)
+		for i, res := range r.Results {
+			if _, isSlice := sub.info.TypeOf(res).Underlying().(*types.Slice); !isSlice {
+				continue
+			}
+			piece, ok := sub.rangeOf(res)
+			if prev, seen := sum.views[i]; !ok || seen && prev != piece {
+				valid = false
+			}
+			sum.views[i] = piece
+		}
+	}
+	if !valid || len(trues) == 0 {
+		return nil
+	}
+	for k := int64(16); k >= 1 && sum.okMin == 0; k-- {
+		all := true
+		for _, p := range trues {
+			if ok, _ := onlyVia(sub.g, p, func(f cfgq.Fact) bool { return sub.lower(f) >= k }); !ok {
+				all = false
+			}
+		}
+		if all {
+			sum.okMin = k
+		}
+	}
+	// the helper's own slicing must be protected by the same test
+	for _, a := range sub.accesses() {
+		p, found := sub.g.Find(a.e)
+		if !found {
+			return nil
+		}
+		if ok, _ := onlyVia(sub.g, p, func(f cfgq.Fact) bool { return sub.lower(f) >= sum.okMin && sum.okMin > 0 }); !ok {
+			return nil
+		}
+	}
+	v.helpers[call] = sum
+	return sum
+}
+
+// rangeOf resolves e to a piece of the payload.
+func (v *verif) rangeOf(e ast.Expr) (rng, bool) {
+	return v.rangeOfN(e, 0)
+}
+
+func (v *verif) rangeOfN(e ast.Expr, depth int) (rng, bool) {
+	if depth > 6 || e == nil {
+		return rng{}, false
+	}
+	switch x := ast.Unparen(e).(type) {
+	case *ast.Ident:
+		o := objOf(v.info, x)
+		if o == nil {
+			return rng{}, false
+		}
+		if o == v.d {
+			return rng{0, 0, 1, 0}, true
+		}
+		if call, idx, ok := v.tupleDef(o); ok {
+			if s := v.summary(call); s != nil {
+				r, has := s.views[idx]
+				return r, has
+			}
+			return rng{}, false
+		}
+		if rhs, other := defsOf(v.info, v.fn.Decl.Body, o); len(rhs) == 1 && other == 0 && rhs[0] != nil {
+			return v.rangeOfN(rhs[0], depth+1)
+		}
+	case *ast.SliceExpr:
+		base, ok := v.rangeOfN(x.X, depth+1)
+		if !ok || x.Max != nil {
+			return rng{}, false
+		}
+		la, lb := int64(0), int64(0)
+		ha, hb := base.ha-base.la, base.hb-base.lb
+		if x.Low != nil {
+			if la, lb, ok = v.lin(x.Low, depth+1); !ok {
+				return rng{}, false
+			}
+		}
+		if x.High != nil {
+			if ha, hb, ok = v.lin(x.High, depth+1); !ok {
+				return rng{}, false
+			}
+		}
+		return rng{base.la + la, base.lb + lb, base.la + ha, base.lb + hb}, true
+	}
+	return rng{}, false
 }
 
 // lin evaluates e as a*len(d) + b.
 func (v *verif) lin(e ast.Expr, depth int) (a, b int64, ok bool) {
-	if depth > 6 {
+	if depth > 8 {
 		return 0, 0, false
 	}
 	e = strip(v.info, e)
@@ -318,13 +533,17 @@ func (v *verif) lin(e ast.Expr, depth int) (a, b int64, ok bool) {
 	}
 	switch x := e.(type) {
 	case *ast.CallExpr:
-		if bi, isB := core.Callee(v.info, x).(*types.Builtin); isB && bi.Name() == "len" && len(x.Args) == 1 && objOf(v.info, x.Args[0]) == v.d {
-			return 1, 0, true
+		if bi, isB := core.Callee(v.info, x).(*types.Builtin); isB && bi.Name() == "len" && len(x.Args) == 1 {
+			if r, ok := v.rangeOfN(x.Args[0], depth+1); ok {
+				return r.ha - r.la, r.hb - r.lb, true
+			}
 		}
 	case *ast.Ident:
 		o := objOf(v.info, x)
 		if rhs, other := defsOf(v.info, v.fn.Decl.Body, o); o != nil && len(rhs) == 1 && other == 0 && rhs[0] != nil {
-			return v.lin(rhs[0], depth+1)
+			if _, _, isTuple := v.tupleDef(o); !isTuple {
+				return v.lin(rhs[0], depth+1)
+			}
 		}
 	case *ast.BinaryExpr:
 		a1, b1, ok1 := v.lin(x.X, depth+1)
@@ -341,6 +560,15 @@ func (v *verif) lin(e ast.Expr, depth int) (a, b int64, ok bool) {
 
 // lower: the lower bound on len(d) implied by fact f (0 if none).
 func (v *verif) lower(f cfgq.Fact) int64 {
+	// the "long enough" flag of a summarised helper
+	if o := objOf(v.info, strip(v.info, f.Expr)); o != nil && f.Val {
+		if call, idx, ok := v.tupleDef(o); ok {
+			if s := v.summary(call); s != nil && idx == s.okIdx {
+				return s.okMin
+			}
+		}
+		return 0
+	}
 	be, ok := ast.Unparen(f.Expr).(*ast.BinaryExpr)
 	if !ok {
 		return 0
@@ -372,31 +600,65 @@ func (v *verif) lower(f cfgq.Fact) int64 {
 
 type access struct {
 	e    ast.Expr
-	kind string // ver-lo ver-hi ver-slice crc-slice covered bad unknown
+	call *ast.CallExpr // the decoder / digest call consuming e, if any
+	kind string        // ver-lo ver-hi ver-slice crc-slice covered bad unknown other
 	desc string
 }
 
 // accesses classifies the reads of the payload by the ROLE they play (which
-// decoder or digest consumes them); reads with no role in the trailer check
-// (say a d[0] used for a log line) are returned with kind "other".
+// decoder or digest consumes them); the pieces may be named by locals or cut
+// by a summarised helper. Reads with no role in the trailer check (say a d[0]
+// used for a log line) are returned with kind "other".
 func (v *verif) accesses() []access {
 	var out []access
-	off := func(e ast.Expr, dflA, dflB int64) (int64, int64, bool) {
-		if e == nil {
-			return dflA, dflB, true
-		}
-		return v.lin(e, 0)
-	}
 	src := v.e.c.Src
+	seen := map[ast.Node]bool{}
+	// pieces consumed by a decoder or the digest
+	ast.Inspect(v.fn.Decl.Body, func(n ast.Node) bool {
+		call, ok := n.(*ast.CallExpr)
+		if !ok || len(call.Args) != 1 {
+			return true
+		}
+		role := ""
+		if _, ok := byteOrder(v.info, call, "Uint16"); ok {
+			role = "ver-slice"
+		} else if _, ok := byteOrder(v.info, call, "Uint64"); ok {
+			role = "crc-slice"
+		} else if v.e.isDigest(core.CalleeFunc(v.info, call)) {
+			role = "covered"
+		}
+		if role == "" {
+			return true
+		}
+		arg := ast.Unparen(call.Args[0])
+		seen[arg] = true
+		ac := access{e: arg, call: call, kind: "unknown", desc: src(arg)}
+		if r, ok := v.rangeOf(arg); ok {
+			good := map[string]bool{
+				"ver-slice": r.la == 1 && r.lb == -10 && r.ha == 1 && (r.hb == 0 || r.hb == -8),
+				"crc-slice": r.la == 1 && r.lb == -8 && r.ha == 1 && r.hb == 0,
+				"covered":   r.la == 0 && r.lb == 0 && r.ha == 1 && r.hb == -8,
+			}[role]
+			if good {
+				ac.kind = role
+			} else {
+				ac.kind, ac.desc = "bad", fmt.Sprintf("%s %s = d[%s:%s]", map[string]string{"ver-slice": "version", "crc-slice": "stored CRC", "covered": "digested range"}[role], src(arg), offs(r.la, r.lb), offs(r.ha, r.hb))
+			}
+		}
+		out = append(out, ac)
+		return true
+	})
 	ast.Inspect(v.fn.Decl.Body, func(n ast.Node) bool {
 		switch x := n.(type) {
 		case *ast.IndexExpr:
-			if objOf(v.info, x.X) != v.d {
+			base, ok := v.rangeOf(x.X)
+			if !ok {
 				return true
 			}
 			ac := access{e: x, kind: "other", desc: src(x)}
 			if _, assembled := v.shiftApplied(x); assembled { // one byte of an integer put together with << and |
 				a, b, ok := v.lin(x.Index, 0)
+				a, b = a+base.la, b+base.lb
 				switch {
 				case !ok:
 					ac.kind = "unknown"
@@ -410,42 +672,43 @@ func (v *verif) accesses() []access {
 			}
 			out = append(out, ac)
 		case *ast.SliceExpr:
-			if objOf(v.info, x.X) != v.d {
-				return true
+			if _, ok := v.rangeOf(x.X); ok && !seen[x] {
+				out = append(out, access{e: x, kind: "other", desc: src(x)})
 			}
-			la, lb, ok1 := off(x.Low, 0, 0)
-			ha, hb, ok2 := off(x.High, 1, 0)
-			ac := access{e: x, kind: "other", desc: src(x)}
-			role := ""
-			if call := callOn(v.fn.Decl.Body, x); call != nil {
-				if _, ok := byteOrder(v.info, call, "Uint16"); ok {
-					role = "ver-slice"
-				} else if _, ok := byteOrder(v.info, call, "Uint64"); ok {
-					role = "crc-slice"
-				} else if v.e.isDigest(core.CalleeFunc(v.info, call)) {
-					role = "covered"
-				}
-			}
-			if role != "" {
-				good := map[string]bool{
-					"ver-slice": la == 1 && lb == -10 && ha == 1 && (hb == 0 || hb == -8),
-					"crc-slice": la == 1 && lb == -8 && ha == 1 && hb == 0,
-					"covered":   la == 0 && lb == 0 && ha == 1 && hb == -8,
-				}[role]
-				switch {
-				case !ok1 || !ok2:
-					ac.kind = "unknown"
-				case good:
-					ac.kind = role
-				default:
-					ac.kind, ac.desc = "bad", fmt.Sprintf("%s %s = d[%s:%s]", map[string]string{"ver-slice": "version", "crc-slice": "stored CRC", "covered": "digested range"}[role], src(x), offs(la, lb), offs(ha, hb))
-				}
-			}
-			out = append(out, ac)
 		}
 		return true
 	})
 	return out
+}
+
+// escapes: the payload (or a piece of it) is handed to a function this rule
+// does not interpret, which may do the length test.
+func (v *verif) escapes() bool {
+	esc := false
+	ast.Inspect(v.fn.Decl.Body, func(n ast.Node) bool {
+		call, ok := n.(*ast.CallExpr)
+		if !ok {
+			return true
+		}
+		if bi, isB := core.Callee(v.info, call).(*types.Builtin); isB && (bi.Name() == "len" || bi.Name() == "cap") {
+			return true
+		}
+		if tv, isT := v.info.Types[call.Fun]; isT && tv.IsType() {
+			return true
+		}
+		_, dec16 := byteOrder(v.info, call, "Uint16")
+		_, dec64 := byteOrder(v.info, call, "Uint64")
+		if dec16 || dec64 || v.e.isDigest(core.CalleeFunc(v.info, call)) {
+			return true
+		}
+		for _, a := range call.Args {
+			if _, ok := v.rangeOf(a); ok {
+				esc = true
+			}
+		}
+		return true
+	})
+	return esc
 }
 
 func offs(a, b int64) string {
@@ -458,22 +721,6 @@ func offs(a, b int64) string {
 		return fmt.Sprintf("len%+d", b)
 	}
 	return fmt.Sprintf("%d*len%+d", a, b)
-}
-
-// callOn returns the call that has e as direct argument.
-func callOn(root ast.Node, e ast.Expr) *ast.CallExpr {
-	var hit *ast.CallExpr
-	ast.Inspect(root, func(n ast.Node) bool {
-		if call, ok := n.(*ast.CallExpr); ok {
-			for _, a := range call.Args {
-				if ast.Unparen(a) == e {
-					hit = call
-				}
-			}
-		}
-		return true
-	})
-	return hit
 }
 
 func verifier(e *env, fn *core.Fn) {
@@ -538,7 +785,7 @@ func verifier(e *env, fn *core.Fn) {
 			return true
 		})
 		switch {
-		case !ok10 && (ok1 || lenTests == 0):
+		case !ok10 && (ok1 || lenTests == 0 && !v.escapes()):
 			c.Check("R3.verify", key("length-guard"), fn.Decl.Pos(), false, "every access to the payload must be preceded by the rejection of len(d) < 10 (found a weaker test or none): a payload shorter than its 10-byte trailer makes the index negative and the tool panics instead of rejecting it", w...)
 		case !ok10:
 			c.Undecidedf("R3.verify", key("length-guard"), fn.Decl.Pos(), "cannot see that len(d) < 10 is rejected before the payload is indexed")
@@ -551,7 +798,7 @@ func verifier(e *env, fn *core.Fn) {
 	// version decoding
 	switch {
 	case len(kinds["ver-slice"]) > 0:
-		call := callOn(fn.Decl.Body, kinds["ver-slice"][0].e)
+		call := kinds["ver-slice"][0].call
 		if order, ok := byteOrder(info, orCall(call), "Uint16"); ok {
 			c.Check("R3.verify", key("version-le16"), call.Pos(), order == "LittleEndian", "the trailer version is little-endian (found binary."+order+"): version 6 is read as 0x0600 and every payload rejected")
 		} else {
@@ -572,7 +819,7 @@ func verifier(e *env, fn *core.Fn) {
 	// stored CRC and digest
 	var crcCall, digCall *ast.CallExpr
 	if s := kinds["crc-slice"]; len(s) > 0 {
-		crcCall = callOn(fn.Decl.Body, s[0].e)
+		crcCall = s[0].call
 		if order, ok := byteOrder(info, orCall(crcCall), "Uint64"); ok {
 			c.Check("R3.verify", key("crc-le64"), crcCall.Pos(), order == "LittleEndian", "the stored CRC is little-endian (found binary."+order+"): it never equals the digest, every intact payload is rejected")
 		} else {
@@ -585,8 +832,8 @@ func verifier(e *env, fn *core.Fn) {
 		return e.isDigest(f) || e.isNew(f)
 	})
 	switch s := kinds["covered"]; {
-	case len(s) > 0 && callOn(fn.Decl.Body, s[0].e) != nil && e.isDigest(core.CalleeFunc(info, callOn(fn.Decl.Body, s[0].e))):
-		digCall = callOn(fn.Decl.Body, s[0].e)
+	case len(s) > 0 && s[0].call != nil:
+		digCall = s[0].call
 		c.Okf("R3.verify", key("digest-covers"), digCall.Pos(), "the digest is %s over d[:len-8], a one-shot function checked under R2", core.FuncName(core.CalleeFunc(info, digCall)))
 	case len(anyDigest) == 0:
 		c.Failf("R3.verify", key("digest-covers"), fn.Decl.Pos(), "%s never recomputes the CRC-64 of the payload: a payload altered in any byte is accepted", name)
@@ -764,4 +1011,28 @@ func inBinary(root ast.Node, info *types.Info, calls ...*ast.CallExpr) bool {
 		return true
 	})
 	return hit
+}
+
+// predBody looks through a call to a same-package function whose body is a
+// single `return <expr>`: it returns that expression and, per parameter
+// object, the argument passed.
+func predBody(c *core.Ctx, from *core.Fn, call *ast.CallExpr) (ast.Expr, map[types.Object]ast.Expr) {
+	f := core.CalleeFunc(from.Pkg.TypesInfo, call)
+	if f == nil || f.Pkg() != from.Obj.Pkg() {
+		return nil, nil
+	}
+	hf := c.FnOf(f)
+	if hf == nil || hf.Decl.Body == nil || len(hf.Decl.Body.List) != 1 {
+		return nil, nil
+	}
+	r, ok := hf.Decl.Body.List[0].(*ast.ReturnStmt)
+	ps := f.Type().(*types.Signature).Params()
+	if !ok || len(r.Results) != 1 || ps.Len() != len(call.Args) {
+		return nil, nil
+	}
+	args := map[types.Object]ast.Expr{}
+	for i := 0; i < ps.Len(); i++ {
+		args[ps.At(i)] = call.Args[i]
+	}
+	return r.Results[0], args
 }
